@@ -1250,7 +1250,7 @@ def fn_curve(case, ctx):
 def patch_case(draw):
     rnd = mixer(draw)
     m, n = rnd.randint(0, 4), rnd.randint(0, 4)
-    high = rnd.random() < 0.012
+    high = rnd.random() < 0.025
     if high:                                    # degree regime in one direction of the net (see curve_case)
         m, n = rnd.choice([(67, 0), (0, 68), (17, 1), (1, 17), (68, 1), (1, 70), (33, 2)])
     P, style, point = control_net(rnd, (m + 1, n + 1))
@@ -1482,8 +1482,8 @@ SUBCHECKS = [
     SubCheck("stat_share_polyline", stat_case("polyline"), fn_stat, quick=48, thorough=60),
     SubCheck("stat_share_surface", stat_case("surface"), fn_stat, quick=48, thorough=60),
     SubCheck("stat_ball_radial", stat_ball_case(), fn_stat_ball, quick=48, thorough=60),
-    SubCheck("bezier_curve", curve_case(), fn_curve, quick=2500, thorough=8000),
-    SubCheck("bezier_patch", patch_case(), fn_patch, quick=1500, thorough=5000),
+    SubCheck("bezier_curve", curve_case(), fn_curve, quick=2500, thorough=6000),
+    SubCheck("bezier_patch", patch_case(), fn_patch, quick=1500, thorough=4000),
 ]
 
 MATCHERS = {}
